@@ -407,7 +407,8 @@ type Conn struct {
 
 // InitRequest is the raw initialize request the harness sends.
 func InitRequest(id string, version string) []byte {
-	return []byte(fmt.Sprintf(`{"jsonrpc":"2.0","id":%s,"method":"initialize","params":{"protocolVersion":%q,"clientInfo":{"name":"verif-peer","version":"1"},"capabilities":{}}}`, id, version))
+	v, _ := json.Marshal(version)
+	return []byte(fmt.Sprintf(`{"jsonrpc":"2.0","id":%s,"method":"initialize","params":{"protocolVersion":%s,"clientInfo":{"name":"verif-peer","version":"1"},"capabilities":{}}}`, id, v))
 }
 
 // Dial creates a connection without any handshake.
